@@ -2125,6 +2125,13 @@ class Evaluator:
                     u = UNIT[u.v]
                 if is_num(u):
                     return _Q(base, u)
+            if meth == 'to_value' and len(args) == 1 and not kwargs:
+                # q.to_value(U) is q.to(U).value
+                u = args[0]
+                if isinstance(u, Const) and u.v in UNIT:
+                    u = UNIT[u.v]
+                if is_num(u):
+                    return (base / u).subs(ANG, 1)
             if meth == 'is_integer' and not args and base.is_number:
                 return Const(float(base) == int(float(base)))
             if meth in ('item', 'copy', 'astype', 'flatten', 'ravel') :
@@ -2132,12 +2139,12 @@ class Evaluator:
             if meth in ('min', 'max', 'mean') and not args:
                 return sp.Function('arr_' + meth)(base)
         if isinstance(base, App) and base.name == 'to':
-            if meth == 'to' and args:
+            if meth in ('to', 'to_value') and len(args) == 1:
                 u = args[0]
                 if isinstance(u, Const) and u.v in UNIT:
                     u = UNIT[u.v]
                 if is_num(u):
-                    return _Q(base.args[0], u)
+                    return _Q(base.args[0], u) if meth == 'to' else (base.args[0] / u).subs(ANG, 1)
         return NotImplemented
 
     # ------------------------------------------------------- primitives
@@ -2281,6 +2288,10 @@ class Evaluator:
                 return App('copy', (a[0],))
             if isinstance(a[0], DictV):
                 return a[0].copy()        # a dict value is mutable: the copy must not alias it
+            if name == 'copy.copy' and isinstance(a[0], Obj) and a[0].ci is not None \
+                    and self.m.lookup(a[0].ci, '__copy__') is None:
+                # an instance the caller goes on to modify must not alias the original: same class, same attribute values
+                return Obj(a[0].cls, dict(a[0].fields), a[0].path, a[0].ci)
             return a[0]
         if name == 'isinstance' and len(a) == 2:
             r = _fold_isinstance(self.m, a[0], a[1])
@@ -2406,7 +2417,8 @@ class Evaluator:
                     if isinstance(u, Const) and u.v in UNIT:
                         u = UNIT[u.v]
                     if is_num(q) and is_num(u):
-                        return q * u
+                        # Quantity(quantity, unit) converts (the same physical quantity, re-expressed); Quantity(number, unit) attaches
+                        return _Q(q, u) if _has_unit(q) else q * u
             if short == 'Angle' and a and is_num(a[0]):
                 q = a[0]
                 u = a[1] if len(a) > 1 else kwargs.get('unit')
